@@ -75,4 +75,203 @@ theorem convertToInt_first (s : Str) (v : Int) (h : convertToInt s = .ok v) :
     | none => simp [hp, ofOpt] at h
     | some w => exact parseI64_10_first s w hp
 
+
+/-! ### decimal and hexadecimal renderings are read back -/
+
+theorem digitVal_digitChar10 : ∀ d : Fin 10, digitVal 10 (digitChar false d.val) = some d.val := by
+  decide
+
+theorem digitVal_digitChar16 :
+    ∀ (u : Bool) (d : Fin 16), digitVal 16 (digitChar u d.val) = some d.val := by
+  decide
+
+theorem digitChar_plain10 : ∀ d : Fin 10, digitChar false d.val ≠ 'x' ∧ digitChar false d.val ≠ 'X' ∧
+    digitChar false d.val ≠ '+' ∧ digitChar false d.val ≠ '-' := by decide
+
+theorem digitChar_plain16 : ∀ (u : Bool) (d : Fin 16), digitChar u d.val ≠ '+' ∧
+    digitChar u d.val ≠ '-' := by decide
+
+theorem parseDigitsAcc_append (radix acc : Nat) (a b : List Char) :
+    parseDigitsAcc radix acc (a ++ b) =
+      match parseDigitsAcc radix acc a with
+      | some x => parseDigitsAcc radix x b
+      | none => none := by
+  induction a generalizing acc with
+  | nil => rfl
+  | cons c cs ih =>
+    simp only [List.cons_append, parseDigitsAcc]
+    cases digitVal radix c with
+    | none => rfl
+    | some d => exact ih _
+
+/-- the digit characters of a rendering: all below the radix -/
+def IsDigitOf (radix : Nat) (upper : Bool) (c : Char) : Prop := ∃ d, d < radix ∧ c = digitChar upper d
+
+theorem natDigits_spec (radix : Nat) (upper : Bool) (hr : 2 ≤ radix)
+    (hd : ∀ d, d < radix → digitVal radix (digitChar upper d) = some d) (n : Nat) :
+    parseDigitsAcc radix 0 (natDigits radix upper n) = some n ∧ natDigits radix upper n ≠ [] ∧
+      ∀ c ∈ natDigits radix upper n, IsDigitOf radix upper c := by
+  induction n using Nat.strongRecOn with
+  | _ n ih =>
+    rw [natDigits]
+    split
+    · next h =>
+      have hn : n < radix := by omega
+      refine ⟨by simp [parseDigitsAcc, hd n hn], by simp, ?_⟩
+      intro c hc
+      simp at hc
+      exact ⟨n, hn, hc⟩
+    · next h =>
+      have hn : radix ≤ n := by omega
+      have hlt : n / radix < n := Nat.div_lt_self (by omega) (by omega)
+      obtain ⟨h1, h2, h3⟩ := ih (n / radix) hlt
+      have hm : n % radix < radix := Nat.mod_lt _ (by omega)
+      refine ⟨?_, by simp, ?_⟩
+      · rw [parseDigitsAcc_append, h1]
+        simp only [parseDigitsAcc, hd _ hm]
+        congr 1
+        rw [Nat.mul_comm]
+        exact Nat.div_add_mod n radix
+      · intro c hc
+        rcases List.mem_append.mp hc with hc | hc
+        · exact h3 c hc
+        · simp at hc
+          exact ⟨n % radix, hm, hc⟩
+
+theorem hd10 : ∀ d, d < 10 → digitVal 10 (digitChar false d) = some d :=
+  fun d h => digitVal_digitChar10 ⟨d, h⟩
+
+theorem hd16 (u : Bool) : ∀ d, d < 16 → digitVal 16 (digitChar u d) = some d :=
+  fun d h => digitVal_digitChar16 u ⟨d, h⟩
+
+theorem parseDigits_natDigits10 (n : Nat) : parseDigits 10 (natDigits 10 false n) = some n := by
+  obtain ⟨h1, h2, _⟩ := natDigits_spec 10 false (by omega) hd10 n
+  unfold parseDigits
+  split
+  · next h => exact absurd h h2
+  · exact h1
+
+theorem parseDigits_natDigits16 (u : Bool) (n : Nat) :
+    parseDigits 16 (natDigits 16 u n) = some n := by
+  obtain ⟨h1, h2, _⟩ := natDigits_spec 16 u (by omega) (hd16 u) n
+  unfold parseDigits
+  split
+  · next h => exact absurd h h2
+  · exact h1
+
+/-- head of a rendering -/
+theorem natDigits_head (radix : Nat) (upper : Bool) (hr : 2 ≤ radix)
+    (hd : ∀ d, d < radix → digitVal radix (digitChar upper d) = some d) (n : Nat) :
+    ∃ c r, natDigits radix upper n = c :: r ∧ IsDigitOf radix upper c ∧
+      ∀ x ∈ r, IsDigitOf radix upper x := by
+  obtain ⟨_, h2, h3⟩ := natDigits_spec radix upper hr hd n
+  cases hl : natDigits radix upper n with
+  | nil => exact absurd hl h2
+  | cons c r =>
+    rw [hl] at h3
+    exact ⟨c, r, rfl, h3 c (by simp), fun x hx => h3 x (by simp [hx])⟩
+
+theorem parseI64_of_digits (radix : Nat) (c : Char) (r : List Char) (hp : c ≠ '+') (hm : c ≠ '-') :
+    parseI64 radix (c :: r) = match parseDigits radix (c :: r) with
+      | some n => if (n : Int) ≤ I64_MAX then some (n : Int) else none
+      | none => none := by
+  unfold parseI64
+  split
+  · contradiction
+  · next h => cases h; exact absurd rfl hp
+  · next h => cases h; exact absurd rfl hm
+  · rfl
+
+theorem parseU64_of_digits (radix : Nat) (c : Char) (r : List Char) (hp : c ≠ '+') :
+    parseU64 radix (c :: r) = match parseDigits radix (c :: r) with
+      | some n => if n ≤ U64_MAX then some n else none
+      | none => none := by
+  unfold parseU64
+  split
+  · contradiction
+  · next h => cases h; exact absurd rfl hp
+  · rfl
+
+theorem convertToInt_noPrefix (c : Char) (r : List Char) (h : c ≠ '0' ∨ ∀ d t, r = d :: t → d ≠ 'x' ∧ d ≠ 'X') :
+    convertToInt (c :: r) = ofOpt (parseI64 10 (c :: r)) := by
+  unfold convertToInt
+  split
+  · next hh =>
+    cases hh
+    rcases h with h | h
+    · exact absurd rfl h
+    · exact absurd rfl (h _ _ rfl).1
+  · next hh =>
+    cases hh
+    rcases h with h | h
+    · exact absurd rfl h
+    · exact absurd rfl (h _ _ rfl).2
+  · rfl
+
+theorem convertToUint_noPrefix (c : Char) (r : List Char) (h : c ≠ '0' ∨ ∀ d t, r = d :: t → d ≠ 'x' ∧ d ≠ 'X') :
+    convertToUint (c :: r) = ofOpt (parseU64 10 (c :: r)) := by
+  unfold convertToUint
+  split
+  · next hh =>
+    cases hh
+    rcases h with h | h
+    · exact absurd rfl h
+    · exact absurd rfl (h _ _ rfl).1
+  · next hh =>
+    cases hh
+    rcases h with h | h
+    · exact absurd rfl h
+    · exact absurd rfl (h _ _ rfl).2
+  · rfl
+
+theorem isDigit10_plain {c : Char} (h : IsDigitOf 10 false c) :
+    c ≠ 'x' ∧ c ≠ 'X' ∧ c ≠ '+' ∧ c ≠ '-' := by
+  obtain ⟨d, hd, rfl⟩ := h
+  exact digitChar_plain10 ⟨d, hd⟩
+
+theorem isDigit16_plain {u : Bool} {c : Char} (h : IsDigitOf 16 u c) : c ≠ '+' ∧ c ≠ '-' := by
+  obtain ⟨d, hd, rfl⟩ := h
+  exact digitChar_plain16 u ⟨d, hd⟩
+
+/-- unsigned decimal rendering, as `i64` text -/
+theorem convertToInt_natDigits (n : Nat) (h : (n : Int) ≤ I64_MAX) :
+    convertToInt (natDigits 10 false n) = .ok (n : Int) := by
+  obtain ⟨c, r, hl, hc, hr⟩ := natDigits_head 10 false (by omega) hd10 n
+  have hp := parseDigits_natDigits10 n
+  rw [hl] at hp ⊢
+  have hc' := isDigit10_plain hc
+  rw [convertToInt_noPrefix c r (Or.inr fun d t ht => by
+    have := isDigit10_plain (hr d (by simp [ht])); exact ⟨this.1, this.2.1⟩)]
+  rw [parseI64_of_digits 10 c r hc'.2.2.1 hc'.2.2.2, hp]
+  simp [h, ofOpt]
+
+theorem convertToUint_natDigits (n : Nat) (h : n ≤ U64_MAX) :
+    convertToUint (natDigits 10 false n) = .ok n := by
+  obtain ⟨c, r, hl, hc, hr⟩ := natDigits_head 10 false (by omega) hd10 n
+  have hp := parseDigits_natDigits10 n
+  rw [hl] at hp ⊢
+  have hc' := isDigit10_plain hc
+  rw [convertToUint_noPrefix c r (Or.inr fun d t ht => by
+    have := isDigit10_plain (hr d (by simp [ht])); exact ⟨this.1, this.2.1⟩)]
+  rw [parseU64_of_digits 10 c r hc'.2.2.1, hp]
+  simp [h, ofOpt]
+
+theorem parseI64_hex (u : Bool) (n : Nat) (h : (n : Int) ≤ I64_MAX) :
+    parseI64 16 (natDigits 16 u n) = some (n : Int) := by
+  obtain ⟨c, r, hl, hc, _⟩ := natDigits_head 16 u (by omega) (hd16 u) n
+  have hp := parseDigits_natDigits16 u n
+  rw [hl] at hp ⊢
+  have hc' := isDigit16_plain hc
+  rw [parseI64_of_digits 16 c r hc'.1 hc'.2, hp]
+  simp [h]
+
+theorem parseU64_hex (u : Bool) (n : Nat) (h : n ≤ U64_MAX) :
+    parseU64 16 (natDigits 16 u n) = some n := by
+  obtain ⟨c, r, hl, hc, _⟩ := natDigits_head 16 u (by omega) (hd16 u) n
+  have hp := parseDigits_natDigits16 u n
+  rw [hl] at hp ⊢
+  have hc' := isDigit16_plain hc
+  rw [parseU64_of_digits 16 c r hc'.1, hp]
+  simp [h]
+
 end CamVerif.XmlParse
